@@ -220,6 +220,20 @@ Json::Value gen() {
       d.rbytes = R64(0, int64_t(1) << 40);
       c.io_stat.push_back(d);
     }
+    if (P(35)) {
+      // loop / dm devices that are not configured, listed before the configured ones
+      int n = R(1, 3);
+      for (int i = 0; i < n; i++) {
+        IoDev d;
+        d.major = P(50) ? 7 : 253;
+        d.minor = i;
+        d.rbytes = R64(0, int64_t(1) << 40);
+        d.wbytes = R64(0, int64_t(1) << 40);
+        d.rios = R64(0, 1 << 30);
+        d.wios = R64(0, 1 << 30);
+        c.io_stat.insert(c.io_stat.begin() + R(0, (int)c.io_stat.size() - (P(50) ? 1 : 0)), d);
+      }
+    }
     if (P(30)) {
       c.has_high_tmp = true;
       c.high_tmp = P(50) ? kMax : pages(wg.prof.maxlog2);
